@@ -89,11 +89,23 @@ def flip(shape: str, lo: int, hi: int, twin: bool = False, real: bool = False):
             blk = W.dt.Block.deserialize(alt)
         except Exception:
             return not twin or True
+        # history: the node has validated (and holds) the genuine block - the altered copy is offered both to the state
+        # before the genuine block and to the state that already contains it
         try:
-            pre.add_block(blk, 3000)
-            accepted = True
+            with_good = pre.add_block(good, 3000)
         except Exception:
-            accepted = False
+            return False
+        accepted = False
+        for st in (pre, with_good):
+            try:
+                out = st.add_block(blk, 3000)
+                # accepted means: the call returned a state in which this altered object is (or passes for) a valid block
+                accepted = True
+                if st is with_good and out is not None and blk.hash() == good.hash() and out.block_by_hash[good.hash()] is good \
+                        and _fields(blk) != _fields(good):
+                    return False         # silently "accepted" as the block already known: same id, different content
+            except Exception:
+                pass
         if twin:
             return accepted      # twin: "decodes and is rejected" must be reachable
         # any acceptance is a violation: either another acceptable block or - when only the transaction part was altered
